@@ -19,6 +19,16 @@ fn app(threads: usize) -> App<()> {
         .with_stateless_route("/big*", |_r: Request| Response::new(StatusCode::OK, vec![b'x'; 6 * 1024 * 1024]))
 }
 
+#[repr(C)]
+struct RLimit {
+    cur: u64,
+    max: u64,
+}
+extern "C" {
+    fn getrlimit(resource: i32, rlim: *mut RLimit) -> i32;
+    fn setrlimit(resource: i32, rlim: *const RLimit) -> i32;
+}
+
 /// complete HTTP response with a Content-Length body fully present?
 fn complete_response(data: &[u8]) -> bool {
     let s = String::from_utf8_lossy(data);
@@ -126,6 +136,40 @@ pub fn dispatch(name: &str, args: &[&str]) -> Option<String> {
                 conns.push((st, s, got));
             }
             std::thread::sleep(Duration::from_millis(40));
+            // fault: the process runs out of file descriptors while a client is waiting in the accept queue, so that
+            // accept() keeps failing (EMFILE) when the signal arrives
+            let mut hog: Vec<std::fs::File> = Vec::new();
+            let mut pending: Option<TcpStream> = None;
+            let mut old_limit: Option<(u64, u64)> = None;
+            let mut fault = "";
+            if states.contains('E') {
+                // leave just enough descriptors for one client connection, then use that one up as well
+                let open_now = std::fs::read_dir("/proc/self/fd").map(|d| d.count() as u64).unwrap_or(64);
+                unsafe {
+                    let mut rl = RLimit { cur: 0, max: 0 };
+                    if getrlimit(7, &mut rl) == 0 {
+                        old_limit = Some((rl.cur, rl.max));
+                        let low = RLimit { cur: (open_now + 12).min(rl.cur), max: rl.max };
+                        setrlimit(7, &low);
+                    }
+                }
+                while let Ok(f) = std::fs::File::open("/dev/null") {
+                    hog.push(f);
+                    if hog.len() > 4096 {
+                        break;
+                    }
+                }
+                hog.pop(); // one descriptor for the client below
+                pending = TcpStream::connect(("127.0.0.1", port)).ok();
+                if pending.is_some() && !hog.is_empty() {
+                    fault = "emfile";
+                    std::thread::sleep(Duration::from_millis(10));
+                } else {
+                    // could not set the fault up (descriptor accounting raced with other threads): run as a plain scenario
+                    hog.clear();
+                    fault = "skipped";
+                }
+            }
             // the signal
             let t_sig = Instant::now();
             let mut extra: Vec<TcpStream> = Vec::new();
@@ -144,10 +188,30 @@ pub fn dispatch(name: &str, args: &[&str]) -> Option<String> {
             } else if when == "after" {
                 tx.send(()).unwrap();
             }
-            let returned = match done_rx.recv_timeout(Duration::from_secs(5)) {
+            let mut rescued = false;
+            let mut returned = match done_rx.recv_timeout(Duration::from_millis(if fault == "emfile" { 1500 } else { 5000 })) {
                 Ok(_) => Some(t_sig.elapsed().as_millis()),
                 Err(_) => None,
             };
+            if returned.is_none() && fault == "emfile" {
+                // the wake-up connect itself can fail for lack of a descriptor (a descriptor freed at the wrong moment lets
+                // the waiting client in, and accept() then blocks): release the descriptors and let the next client wake it
+                rescued = true;
+                hog.clear();
+                let extra_client = TcpStream::connect(("127.0.0.1", port));
+                returned = match done_rx.recv_timeout(Duration::from_secs(4)) {
+                    Ok(_) => Some(t_sig.elapsed().as_millis()),
+                    Err(_) => None,
+                };
+                drop(extra_client);
+            }
+            drop(hog);
+            drop(pending);
+            if let Some((cur, max)) = old_limit {
+                unsafe {
+                    setrlimit(7, &RLimit { cur, max });
+                }
+            }
             // the port must be free again
             let rebind = if returned.is_some() { TcpListener::bind(&addr).is_ok() } else { false };
             // in-flight requests received before the signal must still be answered completely
@@ -164,11 +228,28 @@ pub fn dispatch(name: &str, args: &[&str]) -> Option<String> {
                 }
             }
             drop(extra);
-            let trace = humphrey::verif_trace::take(port);
+            let raw_trace = humphrey::verif_trace::take(port);
+            // while accept() fails the loop spins, logging thousands of identical iterations: keep at most three of any
+            // run of consecutive "accept" events (how many error iterations there were is immaterial)
+            let mut trace: Vec<&str> = Vec::new();
+            let mut run = 0;
+            for e in raw_trace {
+                if e == "accept" {
+                    run += 1;
+                    if run > 3 {
+                        continue;
+                    }
+                } else {
+                    run = 0;
+                }
+                trace.push(e);
+            }
             let _ = hex(b"");
             Some(format!(
-                "returned={} rebind={} probe={} inflight={}/{} trace={}",
+                "returned={} fault={} rescued={} rebind={} probe={} inflight={}/{} trace={}",
                 returned.map(|m| m.to_string()).unwrap_or_else(|| "never".into()),
+                if fault.is_empty() { "none" } else { fault },
+                rescued as u8,
                 rebind as u8,
                 probe_ok as u8,
                 inflight_ok,
